@@ -3,13 +3,19 @@
 # In a scratch git worktree of /repo: (1) the crate's existing tests pass with the change,
 # (2) the demo fails with the change, (3) the demo passes without it. Writes <dir>/confirm.log.
 d="$1"; crate="$2"; demo_args="$3"; suite_args="$4"
-wt=/tmp/seed/confirm-wt-$$
-export CARGO_TARGET_DIR=/tmp/seed/confirm-target CARGO_NET_OFFLINE=true
+# CONFIRM_WT: a persistent worktree reused between confirmations (keeps mtimes, so cargo only
+# rebuilds what a patch touched); default: a fresh one per run
+wt=${CONFIRM_WT:-/tmp/seed/confirm-wt-$$}
+export CARGO_TARGET_DIR=${CONFIRM_TARGET:-/tmp/seed/confirm-target} CARGO_NET_OFFLINE=true
 unset RUSTFLAGS
-git -C /repo worktree add --detach -q $wt HEAD || exit 2
+if [ -n "$CONFIRM_WT" ] && [ -d "$wt/.git" -o -f "$wt/.git" ]; then
+  ( cd $wt && git checkout -q -- . && git clean -fdq && git checkout -q --detach "$(git -C /repo rev-parse HEAD)" ) || exit 2
+else
+  git -C /repo worktree add --detach -q $wt HEAD || exit 2
+fi
 log="$d/confirm.log"; : > "$log"
 cd $wt
-git apply "$d/patch.diff" >> "$log" 2>&1 || { echo "VERDICT $d: patch.diff does not apply" | tee -a "$log"; cd /; git -C /repo worktree remove --force $wt; exit 1; }
+git apply "$d/patch.diff" >> "$log" 2>&1 || { echo "VERDICT $d: patch.diff does not apply" | tee -a "$log"; cd /; [ -n "$CONFIRM_WT" ] || git -C /repo worktree remove --force $wt; exit 1; }
 echo "== existing tests WITH change: cargo test -p $crate $suite_args" >> "$log"
 cargo test --offline --no-fail-fast -p "$crate" $suite_args >> "$log" 2>&1; r_suite=$?
 fails=$(grep -E "^test .* FAILED" "$log" | sort -u | tr '\n' ';')
@@ -20,4 +26,4 @@ git apply -R "$d/patch.diff" >> "$log" 2>&1
 echo "== demo WITHOUT change" >> "$log"
 cargo test --offline -p "$crate" $demo_args >> "$log" 2>&1; r_without=$?
 echo "VERDICT $d: suite_with=$r_suite (want 0; failing: $fails) demo_with=$r_with (want !=0) demo_without=$r_without (want 0)" | tee -a "$log"
-cd /; git -C /repo worktree remove --force $wt
+cd /; if [ -n "$CONFIRM_WT" ]; then ( cd $wt && git checkout -q -- . && git clean -fdq ); else git -C /repo worktree remove --force $wt; fi
